@@ -12,7 +12,7 @@ mkdir -p tests && cp $DST/demo.rs tests/seed_demo.rs
 echo "== demo WITHOUT the change (must pass)"; cargo test --offline --test seed_demo 2>&1 | grep -E "^test result|error\[" | head -3; R_CLEAN=${PIPESTATUS[0]}
 git apply $DST/patch.diff || { echo "PATCH DOES NOT APPLY"; exit 2; }
 echo "== 66 unit tests WITH the change (must pass)"; cargo test --offline --lib 2>&1 | grep -E "^test result" | head -2
-echo "== demo WITH the change (must fail)"; cargo test --offline --test seed_demo 2>&1 | grep -E "^test result|panicked" | head -4
+echo "== demo WITH the change (must fail)"; cargo test --offline --test seed_demo 2>&1 | grep -E "^test result|panicked" | sort -r | head -4
 git checkout -q -- src; rm -f tests/seed_demo.rs
 echo "== checks on /repo with the change applied"
 cd /repo && git diff --quiet || { echo "/repo is dirty, abort"; exit 3; }
@@ -31,4 +31,5 @@ done
 rm -f /tmp/seed_eval.$$
 git -C /repo checkout -- .
 cp -a $EVBAK/. /verif/evidence/; rm -rf $EVBAK
+python3 /verif/tools/gen_from_source.py > /dev/null   # Generated.lean back to the unchanged tree's data
 git -C /repo status --short | head -3
